@@ -178,7 +178,27 @@ def w_hocur(ctx, rng, idx):
     call('transform.hocur', tr.hocur, x, bl, rk, prop=P, refusals=(np.linalg.LinAlgError,), refusal_pred=monitors_transform.hocur_gave_up_on_zero_block, repeats=rep, multiplier=mult, progress=False)
 
 
+def w_hocur_many(ctx, rng, idx):
+    """HOCUR on transformed data tensors far beyond any dense array (12-64 modes, up to 4 functions each: 4^34, 2^64 ... entries): true
+    ranks and spectral gaps from m x m Gram matrices, the result judged on sampled fibres"""
+    p = [12, 20, 34, 41, 48, 64, 33, 22][idx % 8]
+    d = int(rng.integers(1, 4))
+    m = int(rng.integers(2, 6))
+    nmax = 4 if p <= 41 else (3 if p <= 48 else 2)
+    x = rng.uniform(-1.0, 1.0, size=(d, m))
+    def fn():
+        i = int(rng.integers(0, d))
+        k = int(rng.integers(0, 4))
+        return [tr.Identity(i), tr.Sin(i, float(rng.uniform(0.5, 2))), tr.Cos(i, float(rng.uniform(0.5, 2))), tr.ConstantFunction(i)][k]
+    bl = [[fn() for _ in range(int(rng.integers(2, nmax + 1)))] for _ in range(p)]
+    rk = m + int(rng.integers(0, 3))
+    rep, mult = int(rng.integers(1, 3)), int(rng.integers(3, 11))
+    ctx.describe({'op': 'hocur (many modes)', 'd': d, 'm': m, 'modes': p, 'functions_per_mode': [len(f) for f in bl], 'ranks': rk, 'repeats': rep, 'multiplier': mult})
+    call('transform.hocur', tr.hocur, x, bl, rk, prop=P, refusals=(np.linalg.LinAlgError,), refusal_pred=monitors_transform.hocur_gave_up_on_zero_block, repeats=rep, multiplier=mult, progress=False)
+
+
 WORKLOADS = [
+    Workload('hocur_many_modes', w_hocur_many, 3, 24),
     Workload('basis', w_basis, 200, 4000),
     Workload('major', w_major, 150, 3000),
     Workload('hocur', w_hocur, 200, 4000),
